@@ -47,9 +47,10 @@ theorem gen_export_layouts :
 theorem gen_sign_is_export_without_signature (c : Cls) : exportLayout c = signLayout c ++ [sigField c] :=
   layout_split c
 
-/-- what `parse()` unpacks is, field by field, what `export()` packs: same struct codes, the targets name the same
-    attribute (`_` for the version words that RSA parse reads separately), the constructor is fed each local under
-    its own name -/
+/-- what `parse()` unpacks is, field by field, what `export()` packs: same struct codes, and each unpacked value ends
+    up in the constructor attribute that `export()` packs at that position (the generator resolves a local variable
+    to the keyword of the returned `cls(...)` call it is passed to; `_` for the version words that RSA parse reads
+    separately); the constructor receives every attribute -/
 theorem gen_parse_matches_export :
     DatConsts.rsaParse.map (·.1) = DatConsts.rsaExport.map (·.1) ∧
     (DatConsts.rsaParse.map (·.2)).drop 2 = (DatConsts.rsaExport.map (·.2)).drop 2 ∧
@@ -58,10 +59,8 @@ theorem gen_parse_matches_export :
     DatConsts.eccParseTail.map (·.2) = ((DatConsts.eccExport.drop 8).map (·.2)) ∧
     DatConsts.eccParseTail.map (·.1) = [.bytes .hashSize2, .bytes .hashSize2, .bytes .hashSize2] ∧
     DatConsts.eleParseTail = [(.bytes .lenRotPub, .dck), (.bytes .rotSigSize, .sig)] ∧
-    (∀ p ∈ DatConsts.rsaParseBind ++ DatConsts.eccParseBind ++ DatConsts.eleParseBind, p.1 = p.2) ∧
-    DatConsts.rsaParseBind.map (·.1) = [.socc, .uuid, .rotMeta, .dck, .ccSocu, .ccVu, .beacon, .rotPub, .sig] ∧
-    DatConsts.eccParseBind.map (·.1) = DatConsts.rsaParseBind.map (·.1) ∧
-    DatConsts.eleParseBind.map (·.1) = DatConsts.rsaParseBind.map (·.1) := by decide
+    DatConsts.rsaParseFields = [.socc, .uuid, .rotMeta, .dck, .ccSocu, .ccVu, .beacon, .rotPub, .sig] ∧
+    DatConsts.eccParseFields = DatConsts.rsaParseFields ∧ DatConsts.eleParseFields = DatConsts.rsaParseFields := by decide
 
 /-- sizes: an RSA key field is modulus + 4-byte exponent, the signature has the modulus size; ECC coordinate sizes
     and the SHA-2 width that goes with each; the key-size → minor-version maps agree with them -/
